@@ -504,6 +504,88 @@ Definition mk_state_of (t : stateT) : sstate :=
   mkState ini vb va lh lt (unhex lbid) (unhex ah) (unhex rs) (unhex lv) (unhex v) (unhex nv) lhvc
           (unhex pr) lhcpc.
 
+(* ------------------------------------------------------------------ bootstrap cases *)
+
+(* what the harness read back from a real state store / block store *)
+Inductive bobs :=
+| OVals (phase z code : Z) (v : string)    (* LoadValidators(z): 0 ok (hash of the set), 1 error *)
+| OParams (phase z code : Z) (v : string)  (* LoadConsensusParams(z): 0 ok (HashConsensusParams), 1 error, 2 the empty params *)
+| OState (phase code : Z) (st : stateT)    (* Load(): 0 ok *)
+| OSeen (phase z code : Z) (v : string).   (* LoadSeenCommit(z): 0 ok (hash of the commit), 1 none *)
+   (* phase k: read after k successor states were saved on top of the bootstrap *)
+
+Fixpoint obs_vals (obs : list bobs) (ph z : Z) : option bytes :=
+  match obs with
+  | [] => None
+  | OVals p z' c v :: r => if (p =? ph) && (z' =? z) then (if c =? 0 then Some (unhex v) else None) else obs_vals r ph z
+  | _ :: r => obs_vals r ph z
+  end.
+Fixpoint obs_params (obs : list bobs) (ph z : Z) : option (option bytes) :=
+  match obs with
+  | [] => None
+  | OParams p z' c v :: r =>
+    if (p =? ph) && (z' =? z) then (if c =? 0 then Some (Some (unhex v)) else if c =? 2 then Some None else None)
+    else obs_params r ph z
+  | _ :: r => obs_params r ph z
+  end.
+Fixpoint obs_state (obs : list bobs) (ph : Z) : option sstate :=
+  match obs with
+  | [] => None
+  | OState p c st :: r => if p =? ph then (if c =? 0 then Some (mk_state_of st) else None) else obs_state r ph
+  | _ :: r => obs_state r ph
+  end.
+Fixpoint obs_seen (obs : list bobs) (ph z : Z) : option bytes :=
+  match obs with
+  | [] => None
+  | OSeen p z' c v :: r => if (p =? ph) && (z' =? z) then (if c =? 0 then Some (unhex v) else None) else obs_seen r ph z
+  | _ :: r => obs_seen r ph z
+  end.
+
+(* the implementation's lookups of one phase *)
+Definition lk_of_obs (obs : list bobs) (ph : Z) : lookups :=
+  mkLk (obs_vals obs ph) (obs_params obs ph) (obs_state obs ph) (obs_seen obs ph).
+
+Definition oobytes_eqb (a b : option (option bytes)) : bool :=
+  match a, b with Some x, Some y => obytes_eqb x y | None, None => true | _, _ => false end.
+
+(* every observation agrees with the lookups [lk] (of the model's store) *)
+Definition obs_agree (ph : Z) (lk : lookups) (o : bobs) : bool :=
+  match o with
+  | OVals p z c v => negb (p =? ph) || obytes_eqb (lk_vals lk z) (if c =? 0 then Some (unhex v) else None)
+  | OParams p z c v => negb (p =? ph) ||
+      oobytes_eqb (lk_params lk z) (if c =? 0 then Some (Some (unhex v)) else if c =? 2 then Some None else None)
+  | OState p c st => negb (p =? ph) ||
+      match lk_state lk with Some x => (c =? 0) && sstate_eqb x (mk_state_of st) | None => negb (c =? 0) end
+  | OSeen p z c v => negb (p =? ph) || obytes_eqb (lk_seen lk z) (if c =? 0 then Some (unhex v) else None)
+  end.
+
+(* the stores of the model after the first k successors: list of (phase, store) *)
+Fixpoint model_phases (s : sstore) (ph : Z) (succs : list sstate) : list (Z * option sstore) :=
+  (ph, Some s) ::
+  match succs with
+  | [] => []
+  | t :: r => match store_save s t with
+              | Some s' => model_phases s' (ph + 1) r
+              | None => [(ph + 1, None)]
+              end
+  end.
+
+(* clause 19 over the successors: after the k-th one the store tracks the chain up to h+k *)
+Fixpoint tracks_all (lc : Z -> res lightblock) (h : Z) (cm : bytes) (obs : list bobs) (k : Z) (succs : list sstate) : bool :=
+  match succs with
+  | [] => true
+  | t :: r =>
+    let lk := lk_of_obs obs k in
+    spec_tracks_b lc h (h + k) lk && ostate_eqb (lk_state lk) t && obytes_eqb (lk_seen lk h) (Some cm)
+    && tracks_all lc h cm obs (k + 1) r
+  end.
+
+Fixpoint follows_all_b (lc : Z -> res lightblock) (prev : sstate) (succs : list sstate) : bool :=
+  match succs with
+  | [] => true
+  | t :: r => follows_chain_b lc prev t && follows_all_b lc t r
+  end.
+
 (* ------------------------------------------------------------------ cases *)
 
 Inductive case :=
@@ -518,7 +600,14 @@ Inductive case :=
    height, queried height, (ChainID of the returned state, chain id of the chain);
    AppHash / Commit / State answers (code 0 ok, 1 error) *)
 | CProv (blocks : list lbT) (rpc : list rpcT) (initial h : Z) (ids : string * string)
-        (apphash : Z * string) (cm : Z * string) (st : Z * stateT).
+        (apphash : Z * string) (cm : Z * string) (st : Z * stateT)
+(* what node.startStateSync does with a (state, commit) that State(h) / Commit(h) or SyncAny
+   returned, on a real state store and block store: states saved before ([pre]: nothing, or the
+   genesis state), Bootstrap(st) + SaveSeenCommit(h, cm), then Save of the successor states
+   [succs] (built like updateState from the chain's sets and params); [obs] = the lookups read
+   back after each phase.  [blocks] = the chain (what an honest light client vouches for) *)
+| CBoot (blocks : list lbT) (h : Z) (pre : list stateT) (st : stateT) (cm : string)
+        (succs : list stateT) (obs : list bobs).
 
 Definition check (c : case) : verdict :=
   match c with
@@ -571,4 +660,23 @@ Definition check (c : case) : verdict :=
          differ only when the stub labels an answer with another height than the requested) *)
       mism ((match pv_state pv h with ROk a => (sc =? 0) && state_eqb a st | _ => negb (sc =? 0) end)
             || (match lc_state_fixed lc cp initial h with ROk a => (sc =? 0) && state_eqb a st | _ => negb (sc =? 0) end)) 53 ]
+  | CBoot blocks h pre st cm succs obs =>
+    let lc := lc_find blocks in
+    let stm := mk_state_of st in
+    let sm := map mk_state_of succs in
+    first_of [
+      (* the stores answer with the light-verified values right after the bootstrap ... *)
+      viol (spec_boot_b lc h stm (lk_of_obs obs 0)) 18;
+      (* ... and after the following states were saved (when these follow the chain) *)
+      viol (negb (follows_all_b lc stm sm) || tracks_all lc h (unhex cm) obs 1 sm) 19;
+      mism (follows_all_b lc stm sm) 55;
+      mism (match obind (save_all store0 (map mk_state_of pre)) (fun s0 => node_bootstrap s0 stm (unhex cm)) with
+            | Some s1 =>
+              forallb (fun '(ph, os) =>
+                         match os with
+                         | Some s => forallb (obs_agree ph (store_lookups s)) obs
+                         | None => false
+                         end) (model_phases s1 0 sm)
+            | None => false
+            end) 54 ]
   end.
